@@ -1,12 +1,15 @@
 // C19 child: one configuration front-end per process, a fixed message stream through Qt's logging macros, orderly stop.
 // usage: c19child ini <inifile> <run>                      gQtLogger.configureFromIniFile(inifile)
 //        c19child settings <inifile> <run>                 QSettings object + gQtLogger.configure(settings)
+//        c19child inig <inifile> <run>                     the keys live in group [audit]: configureFromIniFile(inifile, "audit"); [logger] holds decoy keys
+//        c19child inig2 <inifile> <run>                    as inig, after ANOTHER Logger object of this process was configured from the decoy group [logger]
 //        c19child oneline <path|-> <size> <count> <optmask> <async 0|1> <run>
 // stdout / stderr are captured by the parent (pipes or ptys); files are read back afterwards.
 #include <QCoreApplication>
 #include <QLoggingCategory>
 #include <QSettings>
 #include <cstring>
+#include <thread>
 #include "qtlogger/qtlogger.h"
 
 Q_LOGGING_CATEGORY(lcNet, "net")
@@ -20,6 +23,9 @@ static void stream(int run)
     qCritical("keep delta");
     qCInfo(lcNet, "keep eps");
     qCDebug(lcUi, "keep zeta %d", run);
+    // ... and from a second thread, after the main thread's messages (joined: the order is fixed)
+    std::thread t([] { qDebug("keep worker"); qCWarning(lcNet, "keep omega"); });
+    t.join();
 }
 
 int main(int argc, char **argv)
@@ -29,6 +35,12 @@ int main(int argc, char **argv)
     std::string mode = argv[1];
     int run = 0;
     if (mode == "ini") { run = atoi(argv[3]); gQtLogger.configureFromIniFile(QString::fromLocal8Bit(argv[2])); }
+    else if (mode == "inig" || mode == "inig2") {
+        run = atoi(argv[3]);
+        static QtLogger::Logger other;      // never installed, never fed: whatever it was configured with must stay its own business
+        if (mode == "inig2") other.configureFromIniFile(QString::fromLocal8Bit(argv[2]), QStringLiteral("logger"));
+        gQtLogger.configureFromIniFile(QString::fromLocal8Bit(argv[2]), QStringLiteral("audit"));
+    }
     else if (mode == "settings") { run = atoi(argv[3]); QSettings s(QString::fromLocal8Bit(argv[2]), QSettings::IniFormat); gQtLogger.configure(s); }
     else if (mode == "oneline" && argc >= 8) {
         QString path = strcmp(argv[2], "-") ? QString::fromLocal8Bit(argv[2]) : QString();
